@@ -600,6 +600,11 @@ def check_diagram(pid, tier):
         if blocks2:
             probe.blocks = blocks2; probe.meta = meta2
             results = results + probe.run()
+    if pid == "C12":
+        # the protocol also holds for compilations that consult a cache and a dominance store (whole layers may be filtered out):
+        # the solver-like stream with shared stores
+        sst = Stream(chk, tier, types=(2, 1), widths=(1, 2, 3), flavours=(0, 1, 2), ninst=(40 if tier == "quick" else 600), stores=True)
+        results = results + sst.run()
     agree, dis = correspondence(chk, results, GATE[pid])
     total = sum(len(rows) for _, rows in results)
     stats = {}; nontriv = set(); samples = []
